@@ -120,7 +120,10 @@ def combo_rows(lin, circ, cols, a):
     for r in range(lin):
         terms = [c[r] * x for c, x in zip(cols, a)]
         scale = ksum(abs(x) for x in terms)
-        out.append((ksum(terms), 64 * EPS * scale * max(1, len(a)) ** 0.5 + 1e-300, 1.0))
+        # Eigen's vectorised exp clamps its argument: exp(-inf) is a denormal (5.6e-309), not 0 — an absolute error of
+        # the order of DBL_MIN on every weight (observed on the clean tree: 1.25e10 * exp(-inf) = 6.9e-299)
+        under = 4 * DBL_MIN * ksum(abs(c[r]) for c in cols)
+        out.append((ksum(terms), 64 * EPS * scale * max(1, len(a)) ** 0.5 + under + 1e-300, 1.0))
     for r in range(lin, lin + circ):
         s = ksum(fsin(c[r]) * x for c, x in zip(cols, a))
         co = ksum(fcos(c[r]) * x for c, x in zip(cols, a))
@@ -235,7 +238,11 @@ def eval_ee(line, hout, dout, wtab, stats, notes):
         for t in dt:
             if t.startswith("t:"):
                 stats["branches"][t[2:]] = stats["branches"].get(t[2:], 0) + 1
-        dcore = [t for t in dt if not t.startswith(("t:", "v:"))]
+        dcore = [t for t in dt if not t.startswith(("t:", "v:", "s:"))]
+        if "s:ok" in dt:
+            stats["spec_calls_ok"] = stats.get("spec_calls_ok", 0) + 1
+        elif tie:
+            probs.append(("corr", "spec-vs-model", "call %d: the history buffers of the model differ from the specification HistSpec driven by poolBufOp" % idx))
         hcore = [t for t in ht if not t.startswith("b:")]
         base = [unhex(t[2:]) for t in ht if t.startswith("b:")]
         op = c["op"]
@@ -597,9 +604,14 @@ def gen_particles(g, lin, circ, N):
 
 def gen_logweights(g, N, ties=True):
     r = g.r
-    style = r.choice(["uniform", "random", "random", "spread", "onehot", "zero"])
+    style = r.choice(["uniform", "random", "random", "spread", "onehot", "zero", "plateau"])
     if style == "uniform":
         w = [1.0] * N
+    elif style == "plateau":
+        # class q: first, second and last weight equal, a different (larger or smaller) one strictly between
+        w = [1.0] * N
+        if N >= 4:
+            w[r.randrange(2, N - 1)] = r.choice([3.0, 0.25, 1.0 + 2.0 ** -40])
     elif style == "spread":
         w = [10.0 ** r.uniform(-300, 0) for _ in range(N)]
     elif style == "onehot":
@@ -786,6 +798,187 @@ def hb_random(g, n):
     return hb_line(ops, dim)
 
 
+# ----------------------------------------------------------------------------- round 4: systematic classes
+
+WINDOWED = [1, 2, 3, 5, 6, 7, 9, 10, 11]
+
+
+def small_extract(g, lin, circ, five, value=None, N=None):
+    """a cheap extract call (1..3 particles); `value`: the linear rows of every particle are value * (1 + j/8)
+    (so that mean / mode / map all give an estimate of that magnitude)"""
+    r = g.r
+    N = N or r.choice([1, 2, 2, 3])
+    ps = []
+    for j in range(N):
+        p = [(value * (1.0 + j / 8.0) if value is not None else g.dyadic(-4, 4, 4)) * (1.0 + i) for i in range(lin)]
+        p += [wrap(r.uniform(-3.0, 3.0)) for _ in range(circ)]
+        ps.append(p)
+    c = {"op": "Y" if five else "X", "ps": ps, "ws": gen_logweights(g, N, ties=False)}
+    if five:
+        c["pw"] = gen_logweights(g, N, ties=False)
+        c["lik"] = [r.uniform(0.1, 2.0) for _ in range(N)]
+        c["tp"] = [[r.uniform(0.1, 2.0) for _ in range(N)] for _ in range(N)]
+    return c
+
+
+def grow_after_wrap_cases(g):
+    """class of C17-r4-1: the window is ENLARGED after the storage has wrapped around, at every phase of the
+    wrap (pushes = w0 + phase, phase over two full turns), to the next size / a few more / the maximum, through
+    every path that enlarges (setMobileAverageWindowSize; setHistorySize; a chain of increaseHistorySize); every
+    later push is read back until the enlarged window has been refilled completely."""
+    out = []
+    k = 0
+    for w0 in (2, 3, 4, 5, 7):
+        for phase in range(2 * w0):
+            for w1 in sorted(set([w0 + 1, w0 + 3, 2 * w0 + 1, 30])):
+                k += 1
+                m = WINDOWED[k % len(WINDOWED)]
+                lin, circ = [(1, 1), (2, 0), (0, 1), (1, 0)][k % 4]
+                five = m >= 8
+                calls = [{"op": "M", "m": m}, {"op": "W", "n": w0}]
+                calls += [small_extract(g, lin, circ, five, value=float(j + 1)) for j in range(w0 + phase)]
+                calls.append({"op": "W", "n": w1})
+                if k % 5 == 0:
+                    calls += [{"op": "W", "n": w0}, {"op": "W", "n": w1}]          # shrink back (cuts nothing more), enlarge again
+                calls += [small_extract(g, lin, circ, five, value=float(100 + j)) for j in range(min(w1, 12) + 2)]
+                out.append((ser_ee(lin, circ, calls), "ee", {"src": "grow-after-wrap"}))
+    for w0 in range(2, 10):
+        for phase in range(2 * w0):
+            for w1 in sorted(set([w0 + 1, w0 + 3, 30])):
+                k += 1
+                ops = [("S", str(w0))] + [("A", el(j + 1)) for j in range(w0 + phase)] + [("G",)]
+                if k % 2:
+                    ops += [("S", str(w1)), ("G",)]
+                else:
+                    for _ in range(min(w1 - w0, 4)):
+                        ops += [("I",), ("G",)]
+                for j in range(min(w1, 12) + 2):
+                    ops += [("A", el(100 + j)), ("G",)]
+                out.append((hb_line(ops), "hb", {"src": "grow-after-wrap"}))
+    return out
+
+
+def outlier_cases(g):
+    """class of C17-r4-2: one base estimate of magnitude 1e12 .. 1e17 (either sign) at every position of the
+    fill-up / of the full window, then ordinary estimates for more than two windows; every windowed family and
+    statistic.  Once the outlier has left the window the estimate must again be the combination of the stored
+    ordinary estimates within a tolerance relative to THEIR size (a running sum keeps the rounding residue)."""
+    out = []
+    k = 0
+    for w in (2, 3, 5, 8, 30):
+        positions = range(w + 2) if w < 30 else (0, 1, 15, 29, 30, 31)
+        for p in positions:
+            for mag in (1e12, -1e15, 1e17):
+                k += 1
+                m = WINDOWED[k % len(WINDOWED)]
+                lin, circ = [(1, 0), (2, 1), (1, 1)][k % 3]
+                five = m >= 8
+                calls = [{"op": "M", "m": m}, {"op": "W", "n": w}]
+                for j in range(p + 2 * w + 3):
+                    calls.append(small_extract(g, lin, circ, five, value=(mag if j == p else 1.0 + (j % 7) / 4.0)))
+                out.append((ser_ee(lin, circ, calls), "ee", {"src": "outlier"}))
+    return out
+
+
+def long_history_cases(g):
+    """histories longer than any fixed internal capacity (>= 31, >= 65, >= 257 estimates without a clear), the
+    window changed on the way; buffer read back after every push"""
+    out = []
+    for n, w, m, marks in ((70, None, 1, {}), (300, 30, 6, {}), (300, 7, 3, {100: 2, 180: 30, 260: 29}), (140, 29, 9, {33: 30, 66: 3, 99: 30})):
+        lin, circ = (1, 1) if m != 9 else (1, 0)
+        calls = [{"op": "M", "m": m}] + ([{"op": "W", "n": w}] if w else [])
+        for j in range(n):
+            if j in marks:
+                calls.append({"op": "W", "n": marks[j]})
+            calls.append(small_extract(g, lin, circ, m >= 8, value=float(j + 1), N=1 if j % 3 else 2))
+        out.append((ser_ee(lin, circ, calls), "ee", {"src": "long-history"}))
+    for w, n in ((30, 300), (5, 70), (16, 300), (2, 260)):
+        ops = [("S", str(w))]
+        for j in range(n):
+            ops += [("A", el(j + 1))] + ([("G",)] if (j < 70 or j % 16 in (0, 1) or j >= n - 3) else [])
+        ops += [("I",), ("G",), ("D",), ("D",), ("G",)]
+        out.append((hb_line(ops), "hb", {"src": "long-history"}))
+    return out
+
+
+LONG_N = [63, 64, 65, 127, 128, 129, 255, 256, 257, 511, 512, 513, 1024, 1025]
+
+
+def long_set_cases(g, quick):
+    """class of C19-r4-1 (chunked accumulation): particle counts at multiples of 64 / 128 / 256 and their
+    neighbours, up to 1025, for mean (linear and circular rows), mode and map, plain and windowed; the angles
+    drift along the index so that leaving out any chunk moves the mean; the maximal weight / score sits in the
+    last position, at a chunk boundary, or in the first position."""
+    r = g.r
+    out = []
+    for idx, N in enumerate(LONG_N):
+        lin, circ = [(1, 1), (0, 2), (2, 1)][idx % 3]
+        centre = r.uniform(-PI, PI)
+        ps = [[g.full(-4, 4) + 3.0 * j / N for _ in range(lin)] + [wrap(centre + 1.6 * j / N - 0.8 + r.uniform(-0.1, 0.1)) for _ in range(circ)] for j in range(N)]
+        raw = [r.uniform(0.2, 1.0) for _ in range(N)]
+        s = math.fsum(raw)
+        lw = [math.log(x / s) for x in raw]
+        calls = [{"op": "M", "m": 0}, {"op": "X", "ps": ps, "ws": lw}]
+        for pos in (N - 1, (N - 1) // 256 * 256, 0):
+            lw2 = list(lw)
+            lw2[pos] = max(lw) + 0.5
+            calls += [{"op": "M", "m": 4}, {"op": "X", "ps": ps, "ws": lw2}]
+        calls += [{"op": "M", "m": r.choice([1, 2, 3])}, {"op": "X", "ps": ps, "ws": lw}, {"op": "X", "ps": list(reversed(ps)), "ws": list(reversed(lw))}]
+        out.append((ser_ee(lin, circ, calls), "ee", {"src": "long-set"}))
+    for N, K in ((255, 3), (256, 1), (257, 2), (512, 3), (64, 64), (65, 65)) + (() if quick else ((256, 256), (1024, 4))):
+        ps = [[g.full(-4, 4)] for _ in range(N)]
+        lw = [math.log(1.0 / N)] * N
+        pw = gen_logweights(g, K, ties=False)
+        lik = [r.uniform(0.1, 1.0) for _ in range(N)]
+        tp = [[r.uniform(0.1, 1.0) for _ in range(K)] for _ in range(N)]
+        calls = [{"op": "M", "m": 8}]
+        for pos in (N - 1, (N - 1) // 64 * 64, N // 2):
+            l2 = list(lik)
+            l2[pos] = 5.0
+            calls.append({"op": "Y", "ps": ps, "ws": lw, "pw": pw, "lik": l2, "tp": tp})
+        calls += [{"op": "M", "m": 9}, calls[-1], calls[1]]
+        out.append((ser_ee(1, 0, calls), "ee", {"src": "long-set"}))
+    return out
+
+
+def mixed_scale_cases(g):
+    """class o: consecutive base estimates that are equal relative to their norm (1e-12 of the dominant row)
+    and differ only in a row 1e-13 .. 1e-20 times smaller; every row is judged at its own scale."""
+    r = g.r
+    out = []
+    for k in range(12):
+        m = WINDOWED[k % len(WINDOWED)]
+        five = m >= 8
+        big, small = r.choice([(1e4, 1e-9), (1e15, 1.0), (1e8, 1e-8), (1.0, 1e-18)])
+        calls = [{"op": "M", "m": m}, {"op": "W", "n": r.choice([2, 3, 5])}]
+        for j in range(9):
+            N = r.choice([1, 2])
+            ps = [[big * (1.0 + q / 8.0), small * (1.0 + j + q / 4.0)] for q in range(N)]
+            c = {"op": "Y" if five else "X", "ps": ps, "ws": gen_logweights(g, N, ties=False)}
+            if five:
+                c["pw"] = gen_logweights(g, N, ties=False)
+                c["lik"] = [r.uniform(0.1, 2.0) for _ in range(N)]
+                c["tp"] = [[r.uniform(0.1, 2.0) for _ in range(N)] for _ in range(N)]
+            calls.append(c)
+        out.append((ser_ee(2, 0, calls), "ee", {"src": "mixed-scale"}))
+    return out
+
+
+def int_range_cases(g):
+    """class r: the whole range of `int` for setMobileAverageWindowSize (the harness parses with strtol and passes
+    an int), values congruent to a valid window modulo 2^8 / 2^16"""
+    out = []
+    reqs = [2147483647, -2147483648, -1, 256 + 5, 65536 + 7, 65536, 256, 32768, 2147483647 - 25, 1 << 30, 255, 257]
+    for k, n in enumerate(reqs):
+        m = WINDOWED[k % len(WINDOWED)]
+        calls = [{"op": "M", "m": m}, {"op": "W", "n": 4}]
+        calls += [small_extract(g, 1, 0, m >= 8, value=float(j + 1)) for j in range(6)]
+        calls.append({"op": "W", "n": n})
+        calls += [small_extract(g, 1, 0, m >= 8, value=float(j + 10)) for j in range(33)]
+        out.append((ser_ee(1, 0, calls), "ee", {"src": "int-range"}))
+    return out
+
+
 # ----------------------------------------------------------------------------- plain (non-sanitizer) build
 
 def build_plain():
@@ -862,6 +1055,11 @@ def run(ctx):
     nseq = ctx.n(500, 6000)
     for _ in range(nseq):
         cases.append((gen_sequence(g, 60), "ee", {"src": "random"}))
+    # round 4: systematic classes (enlarged after wrap-around, magnitude outliers, long histories, long particle
+    # sets at chunk boundaries, mixed-scale rows, the whole range of int)
+    g4 = ctx.gen("r4")
+    cases += grow_after_wrap_cases(g4) + outlier_cases(g4) + long_history_cases(g4) + long_set_cases(g4, quick)
+    cases += mixed_scale_cases(g4) + int_range_cases(g4)
 
     if ctx.replay:
         import json
@@ -897,6 +1095,21 @@ def run(ctx):
             elif kind == "ee":
                 guarded(lambda: eval_ee(line, h, d, wt, stats, notes), line, h)
     evaluate(hout, wtab)
+    # the specification machine HistSpec (append-only log + counter; theorem buffer_refines_spec) on every buffer
+    # case: it must show exactly what the deque model shows (which eval_hb compares with the implementation)
+    hb_idx = [i for i, c in enumerate(cases) if c[1] == "hb"]
+    sout = vlib.run_driver(["hbs" + lines[i][2:] for i in hb_idx])
+    def hb_mask(out):
+        return [c if c[0] == "G" else [c[0], c[2]] for c in split_calls(out)]
+    stats["spec_cases_compared"] = 0
+    for i, so in zip(hb_idx, sout):
+        stats["spec_cases_compared"] += 1
+        try:
+            same = hb_mask(so) == hb_mask(dout[i])
+        except Exception:
+            same = False
+        if not same:
+            corr_bad.append(("spec-vs-model", "HistSpec and HistBuf disagree: %s / %s" % (so[:200], dout[i][:200]), lines[i], hout[i]))
     # the same cases through a plain -O2 -DNDEBUG build without sanitizers (a subset in the quick tier)
     plain = build_plain()
     sub = [i for i, c in enumerate(cases) if c[1] != "hb" or c[2].get("src") != "grid" or i % (7 if quick else 1) == 0]
@@ -920,12 +1133,12 @@ def run(ctx):
         if key in seen:
             continue
         seen.add(key)
-        ctx.violation(key, "C17: " + what, {"harness": "h_extract", "input_line": line[:20000], "observed": h[:4000]})
+        ctx.violation(key, "C17: " + what, {"harness": "h_extract", "input_line": line[:2000000], "observed": h[:4000]})
     known_keys = set(k["key"] for k in ctx.known if k["property"] == ctx.prop)
     if corr_bad and not [p for p in prop_bad if p[0] not in known_keys]:
         key, what, line, h = corr_bad[0]
         ctx.violation("correspondence:" + key, "model and implementation disagree (%d cases) though no property predicate failed: %s" % (len(corr_bad), what),
-                      {"harness": "h_extract", "correspondence": "BFL.Extract / BFL.HistBuf vs EstimatesExtraction / HistoryBuffer", "input_line": line[:20000], "observed": h[:4000]}, no_input=True)
+                      {"harness": "h_extract", "correspondence": "BFL.Extract / BFL.HistBuf vs EstimatesExtraction / HistoryBuffer", "input_line": line[:2000000], "observed": h[:4000]}, no_input=True)
     if stats["probe_weights_vs_model_max_rel"] > 1e-13:
         ctx.notes.append("the implementation's window weights differ from the model's (max rel %.3g); the property only promises positive, normalised, non-increasing weights" % stats["probe_weights_vs_model_max_rel"])
     for k, v in sorted(notes.items()):
@@ -941,6 +1154,7 @@ def run(ctx):
         "evaluations": len(cases), "distinct_nontrivial": nontrivial,
         "rule": "buffer: for every initial window request 0..40 x fill level 0..40 x %s second window request: set, fill with distinct elements, read, resize, read, add two, read, clear, read, add, read (exhaustive), plus decrease/increase chains and random operation sequences incl. unsigned extremes; "
                 "extraction: weight probes (unit vectors through the mode of a two-particle set) for the 3 windowed families x windows 2..30 x every fill level; all 12 methods x both overloads on 3 layouts; seeded random call sequences of length 20..60 mixing setMethod / setWindow (incl. <= 0, 1, 2, 30, 31, 40) / clear / move / extract(2 args) / extract(5 args) with 1..6 distinct particles, 0..3 linear and 0..2 circular rows, exact ties of the maximal weight / map score, zero likelihoods and transition entries, angles outside (-pi, pi]; "
+                "round 4, enumerated in every run: window enlarged after the storage has wrapped around at every phase (w0 in 2..9, pushes w0..3*w0-1, to w0+1 / w0+3 / 2*w0+1 / 30, through setMobileAverageWindowSize, setHistorySize and increaseHistorySize chains, every later push read back until refilled); one base estimate of 1e12 / -1e15 / 1e17 at every position of windows 2, 3, 5, 8, 30 followed by more than two windows of ordinary estimates, all nine windowed methods; histories of 70 / 140 / 300 estimates without a clear; particle sets of 63..1025 columns (multiples of 64 / 128 / 256 and neighbours) for mean / mode / map with the maximum at the end, at a chunk boundary and at the start; rows of scale 1e15 next to rows of scale 1; window requests over the whole range of int; plateau weights (first = second = last, a different one between); "
                 "non-trivial = more than a single call; distinct = distinct case lines" % ("16 boundary values of the" if quick else "each of 0..40 as"),
         "samples": [cases[0][0][:300], probe_case(2, 3)[:300], hb_grid_case(10, 4, 3), (ee_lines[0][:600] if ee_lines else "")],
         "exhaustive": True,
@@ -951,7 +1165,7 @@ def run(ctx):
         "model_vs_impl_disagreements": len(corr_bad), "property_failures_on_impl": len(prop_bad),
         "model_deviation_notes": notes,
         "plain_build": {"cases": stats.get("plain_build_cases"), "new_failures": stats.get("plain_build_new_failures")},
-        "numeric": {k: stats.get(k) for k in ("max_model_err_over_tol", "max_model_err_at", "probe_weights_vs_model_max_rel", "ill_conditioned_rows_skipped", "weight_vectors_probed", "hb_full_reads")},
+        "numeric": {k: stats.get(k) for k in ("max_model_err_over_tol", "max_model_err_at", "probe_weights_vs_model_max_rel", "ill_conditioned_rows_skipped", "weight_vectors_probed", "hb_full_reads", "spec_cases_compared", "spec_calls_ok")},
         "sanitizer_crashes": len(logs),
     })
     ctx.assumptions += [
